@@ -232,6 +232,33 @@ def check_decl(dc, st, tier, only=None):
                 if with_rx != without:
                     st.violate('filter differs with the pre-filter', '%s: filter() returns %d packets with the regexp pre-filter and %d without | %s' % (
                         what, len(with_rx), len(without), srcline), case, snip)
+    # ---- ONE pattern object used again and again: every field fixed, then relaxed to Any() one by one (in declaration order and in
+    #      reverse), then fixed again one by one; after every change filter() with the pre-filter must return what it returns without
+    if only is None or only.get('chain') is not None:
+        small = corpus[:400]
+        for vi, v in enumerate(vals[:2] if only is None else [only['values']]):
+            for direction in ((1, -1) if only is None else (only['chain'],)):
+                pat = anything_like(K)
+                order_n = list(names)[::direction]
+                steps = [('fix', n) for n in order_n] + [('relax', n) for n in order_n] + [('fix', n) for n in order_n[::-1]]
+                done = []
+                for what, n in steps:
+                    setattr(pat, n, v[n] if what == 'fix' else Any())
+                    done.append('%s %s' % (what, n))
+                    st.inc('evaluations')
+                    st.inc('pattern_reuse_steps')
+                    try:
+                        with_rx = [ir.extract(x, dc.P, dc.pkts) for x in pm.filter(pat, small, filter_with_regexp_first=True)]
+                        without = [ir.extract(x, dc.P, dc.pkts) for x in pm.filter(pat, small, filter_with_regexp_first=False)]
+                    except Exception as e:
+                        st.violate('filter raises (pattern reused)', 'one pattern object, %s: filter() raised %r | %s' % (', '.join(done), e, srcline),
+                                   dc.case(values=v, fixed=[], chain=direction))
+                        break
+                    if with_rx != without:
+                        st.violate('filter differs with the pre-filter (pattern reused)',
+                                   'one pattern object of values %r, after %s: filter() returns %d packets with the regexp pre-filter and %d without | %s' % (
+                                       v, ', '.join(done), len(with_rx), len(without), srcline), dc.case(values=v, fixed=[], chain=direction))
+                        break
     st.inc('patterns', npat)
     dc.syms, dc.L = ('corpus', len(corpus))
 
@@ -246,7 +273,7 @@ def run(tier):
                           'by expression/by callable/bytes marker (incl. a marker containing ".")/marker kept/regex kept/EOS; patterns = concrete packets parsed from the '
                           'corpus (metacharacter-valued first) x every subset of fixed fields; corpus = all strings up to the bound over the base alphabet and '
                           'over regex metacharacters (\\ ] ^ - . \\n [ $ * ( ) plus one metacharacter at every position of longer strings; '
-                          'states = distinct (declaration, fixed subset, generated expression); threads: all schedules with <=%d preemption(s) of two threads '
+                          'ONE pattern object reused: all fields fixed one by one, relaxed to Any() one by one, fixed again (both directions), filter() with and without the pre-filter after every change; states = distinct (declaration, fixed subset, generated expression); threads: all schedules with <=%d preemption(s) of two threads '
                           'that each derive the expression of their own pattern and apply it to a corpus (two pattern pairs), scheduling points = source '
                           'lines inside bisturi' % (2 if tier == 'quick' else 3, 1 if tier == 'quick' else 2),
                       {'patterns': st.n.get('patterns', 0), 'filter_comparisons': st.n.get('filters', 0), 'thread_schedules': st.n.get('thread_schedules', 0),
